@@ -192,6 +192,49 @@ pub fn precondition_part() -> BoxedStrategy<StrCase> {
         .boxed()
 }
 
+/// deepest nesting of unescaped parentheses (outside character classes) in a pattern string
+pub fn group_depth(p: &str) -> usize {
+    let (mut depth, mut max, mut class, mut esc) = (0usize, 0usize, 0usize, false);
+    for c in p.chars() {
+        if esc {
+            esc = false;
+            continue;
+        }
+        match c {
+            '\\' => esc = true,
+            '[' => class += 1,
+            ']' => class = class.saturating_sub(1),
+            '(' if class == 0 => {
+                depth += 1;
+                max = max.max(depth);
+            }
+            ')' if class == 0 => depth = depth.saturating_sub(1),
+            _ => {}
+        }
+    }
+    max
+}
+
+/// groups nested 50 to 600 deep, plain, quantified or with an alternative at each level: parser, optimiser, matcher
+/// and the destructor all recurse once per level
+pub fn deep_nesting_part() -> BoxedStrategy<StrCase> {
+    (50usize..=600, 0u8..5, prop::sample::select(vec!["a", "[ab]", "a|b", "\\d", ""]), gen::flags_strategy("smi"))
+        .prop_map(|(d, kind, inner, flags)| {
+            // (an empty innermost term under nested + would be (length+1)^depth work: finite, but not for this check)
+            let inner = if kind == 4 && inner.is_empty() { "a" } else { inner };
+            let (open, close) = match kind {
+                0 => ("(", ")"),
+                1 => ("(?:", ")"),
+                2 => ("(", ")?"),
+                3 => ("(?:b|", ")"),
+                _ => ("(?:", ")+"),
+            };
+            let pattern = format!("{}{inner}{}", open.repeat(d), close.repeat(d));
+            StrCase { dialect: Dialect::XPath, pattern, flags, inputs: vec!["a".into(), "xa1y".into(), String::new()], replacements: vec!["[$1]".into()], tag: "deep-nesting".into() }
+        })
+        .boxed()
+}
+
 pub fn bad_in_outcome(out: &Outcome) -> Option<String> {
     match &out.compile {
         Res::Panic(p) => return Some(format!("compile panicked: {p}")),
@@ -234,12 +277,25 @@ pub fn bad_in_outcome(out: &Outcome) -> Option<String> {
 }
 
 pub fn check_no_panic(case: &StrCase, ctx: &mut Ctx) -> Verdict {
-    let job = case.job();
+    let mut job = case.job();
+    let depth = group_depth(&case.pattern);
+    if depth > 40 {
+        // the analyze tree nests once per group and the outcome travels as JSON (parser depth limit 128)
+        job.apis &= !API_ANALYZE;
+        ctx.obs.label("groups-nested>40");
+    }
     let res = ctx.w.run(&job);
     let out = match &res {
         JobResult::Done(o) => o,
         JobResult::Hang => return Verdict::Skip("hang"),
         JobResult::Died(st) => {
+            let mut regions = vec![];
+            if depth >= 2000 {
+                regions.push("group_nesting_depth>=2000");
+            }
+            if let Some(id) = ctx.known.attribute("C05", &regions, "process-abort") {
+                return Verdict::Known(id);
+            }
             return Verdict::Fail(Failure {
                 sub: "no-panic".into(),
                 expected: "Ok or classified Err".into(),
@@ -283,6 +339,7 @@ impl Prop for C05 {
             Part { name: "random-string".into(), strategy: random_string_part(), cases: tier.pick(150_000, 3_000_000) },
             Part { name: "extreme-bounds".into(), strategy: extreme_part(), cases: tier.pick(60_000, 1_000_000) },
             Part { name: "precondition-shape".into(), strategy: precondition_part(), cases: tier.pick(60_000, 1_000_000) },
+            Part { name: "deep-nesting".into(), strategy: deep_nesting_part(), cases: tier.pick(3_000, 30_000) },
         ]
     }
     fn enumerations(&self, _tier: Tier) -> Vec<(String, String, Box<dyn Iterator<Item = StrCase> + Send>)> {
